@@ -196,7 +196,9 @@ func prepare(c faultCase) (prep, error) {
 		sc.ReadTimeoutMs = 3000
 	case "not-connected":
 		sc.NotConnected = true
+		sc.Again = true
 	case "connect-failed":
+		sc.Again = true
 		// Connect was called and failed (odd prefix: the dial function returned its error together with a typed-nil connection)
 		if cli.IsSerial(c.Kind) {
 			sc.NotConnected = true
@@ -207,6 +209,7 @@ func prepare(c faultCase) (prep, error) {
 		}
 	case "nil-request":
 		sc.NilRequest = true
+		sc.Again = true
 	}
 	sc.Stream, sc.Events = stream, ev
 	sc.ExplicitParser = c.ExplicitParser
@@ -377,6 +380,9 @@ func judge(c faultCase, p prep, o cli.Outcome) harness.Result {
 		if o.Elapsed > time.Second {
 			return harness.Fail(desc+"did not fail immediately (%v)", o.Elapsed)
 		}
+		if r, bad := judgeAgain(desc, o); bad {
+			return r
+		}
 	case "nil-request":
 		if len(o.Writes) != 0 || len(o.Reads) != 0 {
 			return harness.Fail(desc + "nil request caused transport I/O")
@@ -384,8 +390,25 @@ func judge(c faultCase, p prep, o cli.Outcome) harness.Result {
 		if o.Elapsed > time.Second {
 			return harness.Fail(desc+"did not fail immediately (%v)", o.Elapsed)
 		}
+		if r, bad := judgeAgain(desc, o); bad {
+			return r
+		}
 	}
 	return harness.Result{NonTrivial: inside || c.Fault == "cancel-in-read" || c.Fault == "cancel-reply-continues" || c.Fault == "deadline-in-stall", Labels: labels}
+}
+
+// judgeAgain: the same call made once more on the same client object fails immediately as well - an immediate failure leaves nothing
+// behind that the next call could wait for.
+func judgeAgain(desc string, o cli.Outcome) (harness.Result, bool) {
+	switch {
+	case o.AgainHung:
+		return harness.Fail(desc+"the same call made once more on the same client did not return within %v", cli.HangCeiling), true
+	case o.AgainDone && o.AgainErr == nil:
+		return harness.Fail(desc + "the same call made once more on the same client reported success"), true
+	case o.AgainDone && o.AgainElapsed > time.Second:
+		return harness.Fail(desc+"the same call made once more on the same client did not fail immediately (%v)", o.AgainElapsed), true
+	}
+	return harness.Result{}, false
 }
 
 func respBytes(o cli.Outcome) []byte {
